@@ -2,7 +2,7 @@
    Only statements; proofs are in Proofs/MultipartProof.v.  The model (Model/Multipart.v) is tied to the gateway by
    props/c08.py on every run. *)
 From Coq Require Import String List ZArith Bool.
-From VGW Require Import Base.GoStr Model.Range Spec.RangeSpec Model.Multipart Proofs.MultipartProof.
+From VGW Require Import Base.GoStr Model.Range Spec.RangeSpec Model.Multipart Proofs.MultipartProof Model.Paging Proofs.UploadsPaging.
 Import ListNotations.
 Open Scope string_scope.
 Open Scope Z_scope.
@@ -81,6 +81,29 @@ Print Assumptions C08_copy_range_complete.
 Theorem C08_slice_length : forall d off len, wf_data d -> 0 <= off -> 0 <= len -> off + len <= dlen d -> dlen (dslice d off len) = len.
 Proof. exact dslice_len. Qed.
 Print Assumptions C08_slice_length.
+
+(* ListMultipartUploads, page by page (Model/Paging.v = the page selection of posix.ListMultipartUploads after repair of its marker
+   handling; the uploads in (key, upload id) order, every key and id non-empty). One page, when the markers are empty or name an upload
+   of the list: the next max uploads behind it, truncated iff more remain, the next markers naming the page's last upload.
+   Following the markers from the start: every upload exactly once, in order, whatever the page size - also with several uploads of
+   one key (where the page selection before the repair repeated or skipped uploads, and with max-uploads=1 never ended) *)
+Theorem C08_list_uploads_page : forall A R km im max, usorted (A ++ R) -> Forall named (A ++ R) -> (1 <= max)%nat ->
+  ((A = [] /\ km = "") \/ exists A', A = A' ++ [(km, im)])%list ->
+  list_uploads (A ++ R) km im true max =
+  if Nat.leb (List.length R) max then Ok_ (R, false, ("", "")) else Ok_ (firstn max R, true, lastu (firstn max R)).
+Proof. exact one_page. Qed.
+Print Assumptions C08_list_uploads_page.
+
+Theorem C08_list_uploads_pages_complete : forall sorted max, usorted sorted -> Forall named sorted -> (1 <= max)%nat ->
+  lmu_pages sorted "" "" max (S (List.length sorted)) = sorted.
+Proof. exact uploads_pages_complete. Qed.
+Print Assumptions C08_list_uploads_pages_complete.
+
+Example C08_list_uploads_example :
+  let ups := [("a", "u1"); ("a", "u2"); ("a", "u3"); ("b", "u0"); ("c/d", "u5")] in
+  usorted ups /\ lmu_pages ups "" "" 1 6 = ups /\ lmu_pages ups "" "" 2 6 = ups /\
+  list_uploads ups "a" "u1" true 2 = Ok_ ([("a", "u2"); ("a", "u3")], true, ("a", "u3")).
+Proof. vm_compute. repeat split; reflexivity. Qed.
 
 (* non-vacuity: two uploads for one key; a re-uploaded part; a copied open-ended range; the completion of one of them
    assembles the latest parts and leaves the other upload alone *)
